@@ -29,6 +29,11 @@ def run_scenarios(ctx: Ctx, base: List[dict], drops_per: int, seeds_per: int) ->
                 f['id'] = '%s/drop%d@%s' % (sc['id'], k, who)
                 f['fault'] = {'drop': k, 'drop_for': who}
                 faulty.append(f)
+        for j, plan in enumerate(sc.get('plans', [])):
+            f = dict(sc)
+            f['id'] = '%s/plan%d' % (sc['id'], j)
+            f['fault'] = plan
+            faulty.append(f)
         for j in range(seeds_per):
             f = dict(sc)
             f['id'] = '%s/delay%d' % (sc['id'], j)
@@ -81,9 +86,26 @@ def late_browser(sid: str, variant: int) -> dict:
     return {'id': sid, 'seed': 1000 + variant, 'hosts': ['node0', 'node1', 'node2'], 'late_hosts': ['node2'], 'steps': steps, 'fault': {}}
 
 
+def churn(sid: str, variant: int) -> dict:
+    """A service that is registered while a browser is in its start-up phase and withdrawn as soon as its announcements are
+    out.  With a slow path from the responder (plans), a start-up query crosses the first announcement: it reaches the responder
+    within a second of the announcement without listing the instance as known, so its answer is held by the one-second
+    protection and is still queued when the service is unregistered."""
+    svc = {'name': 'Churn-%d._http._tcp.local.' % variant, 'type': '_http._tcp.local.', 'host': 'node0', 'port': 80, 'txt': b'\x03a=1'.hex()}
+    r = 350 + 50 * (variant % 8)                   # announcements start at r + 525: 875 .. 1225, the second start-up query at 1020 .. 1120
+    tu = r + 525 + 450 + 30
+    steps = [{'op': 'at', 't': 0}, {'op': 'bstart', 'bid': 1, 'host': 'node1', 'types': ['_http._tcp.local.']},
+             {'op': 'at', 't': r}, {'op': 'reg', 'svc': svc},
+             {'op': 'at', 't': tu}, {'op': 'unreg', 'svc': svc},
+             {'op': 'at', 't': tu + 3200}, {'op': 'check', 'kind': 'after-withdrawal'}, {'op': 'at', 't': tu + 3700}]
+    return {'id': sid, 'seed': 2000 + variant, 'hosts': ['node0', 'node1'], 'steps': steps, 'fault': {},
+            'plans': [{'from_delay': {'node0': 100}}, {'from_delay': {'node0': 60}, 'max_delay': 30}]}
+
+
 def run(ctx: Ctx) -> None:
     rng = random.Random(ctx.seed * 7919 + 7)
     base = [late_browser('c07-late-%d' % k, k) for k in range(ctx.pick(2, 6))]
+    base += [churn('c07-churn-%d' % k, k) for k in range(ctx.pick(8, 16))]
     base += [lf.gen_link(rng, 'c07-%d' % k, ctx.thorough) for k in range(ctx.pick(8, 120))]
     run_scenarios(ctx, base, ctx.pick(40, 0), ctx.pick(2, 3))
 
